@@ -85,7 +85,8 @@ def fun_src(style, owner, name, ind="", recv="", example=False) -> str:
     d = doc(style, desc_lines(owner), ind + "    ", params=[("p", "int", f"tok_{u}_p_p is a parameter.")], ret=f"tok_{u}_res is the result.",
             ex=f'>>> tok_{u}_ex(">>> 1",\n...        [...])' if example else None)
     args = ", ".join(x for x in (recv, "p: int") if x)
-    return f"{ind}def {name}({args}) -> int:\n{d}\n{ind}    ...\n"
+    # a string statement further down in the body is no docstring
+    return f"{ind}def {name}({args}) -> int:\n{d}\n{ind}    q = 1\n{ind}    \"\"\"String statement in the body of {name}.\"\"\"\n{ind}    return q\n"
 
 
 def elem_src(style, e) -> str:
@@ -93,7 +94,9 @@ def elem_src(style, e) -> str:
         return fun_src(style, e, e, example=(e == "fa")) + "\n"
     if e == "CA":
         d = doc(style, desc_lines("CA"), "    ", params=[("x", "int", "tok_CA_p_x is a parameter.")], attrs=[("at", "int", "tok_CA_at_at is an attribute.")])
-        return f"class CA:\n{d}\n\n    at: int = 1\n\n    def __init__(self, x: int):\n        ...\n\n" + fun_src(style, "CA.meth", "meth", "    ", "self") + "\n"
+        # the string after the attribute is the attribute's docstring by convention, not the class's
+        return (f"class CA:\n{d}\n\n    at: int = 1\n    \"\"\"String statement after the attribute at.\"\"\"\n\n    def __init__(self, x: int):\n        ...\n\n"
+                + fun_src(style, "CA.meth", "meth", "    ", "self") + "\n")
     if e == "fc":
         if style == "NUMPYDOC":
             ind = "    "
@@ -210,7 +213,8 @@ def main(v: Verdict) -> None:
     for style in ["PLAINTEXT", *STYLES]:
         files = {"__init__.py": ""}
         for k, order in enumerate(orders):
-            files[f"perm{k:02d}.py"] = "\n".join(elem_src(style, e) for e in order)
+            # the module has no docstring: the string after the first assignment is not one
+            files[f"perm{k:02d}.py"] = "XMOD = 1\n\"\"\"String statement after XMOD.\"\"\"\n\n\n" + "\n".join(elem_src(style, e) for e in order)
         d = write_pkg(files, "dapk" + style.lower()[:3])
         jobs.append({"src": d, "opts": Opts(docstyle=style), "timeout": 600, "trace_cache": True})
         meta.append((style, d.name))
@@ -234,7 +238,7 @@ def main(v: Verdict) -> None:
                 texts[path] = text
                 if path in ("fa", "fb", "fc", "CA", "CB", "CA.meth", "CB.meth"):
                     lines.append({"decl": path, "text": desc, "excode": excode})
-            obs.append({"id": f"module:{style}:{mod}", "kind": "module", "obs": {"style": style, "found": found, "lines": lines}})
+            obs.append({"id": f"module:{style}:{mod}", "kind": "module", "obs": {"style": style, "found": found, "lines": lines, "moddoc": sds.doc_lines(f.doc) if f.doc else []}})
             per_style.setdefault(mod, {})[style] = texts
     # style equivalence for constructs common to the three structured styles (functions and methods; class CB)
     for mod, by in sorted(per_style.items()):
